@@ -58,6 +58,11 @@ def generate(seed, tier):
             e['names'] = S['swarm'].choice([{'GOV': 'HH', 'HH': 'GOV'}, {'GOV': 'BUS', 'BUS': 'GOV'}, {'HH': 'TF', 'TF': 'HH'},
                                             {'GOV': 'HH', 'HH': 'PS'}])
         econs.append(e)
+    if S['swarm'].random() < 0.2:
+        # currency names are plain strings: 'kr', 'Kr' and 'KR' are three different currencies
+        for e, cur in zip(econs, S['swarm'].sample(['kr', 'Kr', 'KR', 'kR'], len(econs))):
+            if e['kind'] in ('closed', 'closed_fin', 'capitalists', 'pc'):
+                e['currency'] = cur
     return {'kind': 'ECON', 'twin': 'embed', 'family': 'embed', 'seed': seed, 'tight': tight, 'T': T,
             'economies': econs, 'external': S['swarm'].choice([None, None, 'first', 'last'])}
 
@@ -242,6 +247,10 @@ def economy_ops(e, T, tight, standalone):
     cmap = {c: code for c in ('CA', 'US', 'C1', 'X')}
     sub, info = econgen.gen_program(e['seed'], family=e['kind'], tight=tight, T=T, cmap=cmap, with_main=False,
                                     names=e.get('names'))
+    if e.get('currency'):
+        for op in sub:
+            if op['op'] == 'Country':
+                op['currency'] = e['currency']
     if e['kind'] == 'federated':
         # the federation's currency is stated explicitly (pairwise different currencies is the premise);
         # its member regions take the default currency, as the library's own REG2 builder does
